@@ -378,6 +378,39 @@ def workload(ctx, repo):
         for case in edge_year_dumps(rng):
             ctx.case = case
             run_case(ctx, repo, case)
+    # every pair of small offsets (hours and minutes -3..3, minutes with the
+    # hour's sign): the point's own offset against the format's literal zone
+    # / the requested zone, neighbours one hour or one minute apart included
+    small = [(h, m) for h in range(-3, 4) for m in range(-3, 4)
+             if not (h > 0 and m < 0) and not (h < 0 and m > 0)]
+    jj = 0
+    for src in small:
+        for dst in small:
+            jj += 1
+            if not ctx.mine(jj):
+                continue
+            kw = {"year": 2021, "month_of_year": (3, 1, 12)[jj % 3],
+                  "day_of_month": (1, 1, 31)[jj % 3],
+                  "hour_of_day": (0, 1, 23)[jj % 3],
+                  "minute_of_hour": (1, 30, 58)[(jj // 3) % 3],
+                  "second_of_minute": 7}
+            kw.update(gen.zone_kwargs(src))
+            rep, ext = (("cal", True), ("ord", False), ("week", True))[jj % 3]
+            zform = "hh" if dst[1] == 0 and jj % 2 else "hhmm"
+            tsep = ":" if ext else ""
+            fmt = DATE_FMT[(rep, ext)] + "T" + "hh" + tsep + "mm" + tsep + \
+                "ss" + isotext.enc_zone(dst, zform, ext)
+            case = {"op": "dump", "mode": "gregorian", "p": kw, "fmt": fmt,
+                    "spec": {"rep": rep, "ext": ext, "nexp": 0, "units": 3,
+                             "zform": zform,
+                             "off_min": dst[0] * 60 + dst[1]}}
+            ctx.case = case
+            ctx.ev("cases.small-offset-pairs")
+            run_case(ctx, repo, case)
+            case = {"op": "tz", "mode": "gregorian", "p": kw,
+                    "dest": list(dst)}
+            ctx.case = case
+            run_case(ctx, repo, case)
     # New Year and week-year boundaries of every century year (leap and
     # common, every weekday they start on) and their neighbours: one hour
     # either side of midnight, re-zoned across it
